@@ -173,6 +173,7 @@ def main(chk):
     chk.assumptions += [
         'MD5 is an uninterpreted function (collisions outside the claim); salt unpredictability, TLS and the auth_query network exchange are outside the claim',
         'cleartext-password pools and the admin database; auth_query (pass-through) hashes are not exercised',
+        'std String / Option / BTreeMap equality and hashing are structural; DefaultHasher maps different write sequences to different values (collisions outside the claim)',
     ]
     prog = chk.program('on')
     tasks = []
@@ -188,6 +189,11 @@ def main(chk):
     tasks.append((o1_startup, (prog, 'admin', 'pgbouncer', 36, 'none', True)))
     tasks.append((o1_startup, (prog, 'u', None, 36, 'none', False)))
     chk.parallel(_dispatch, tasks)
+    # "the configured secret" is the one in the file in force: a reload that changes a user's password / auth_type / name must replace the
+    # pool the old values were baked into -- which it does iff the User definition's identity (PartialEq for the reload gate, Hash for pool
+    # reuse) depends on those fields (the C14 identity obligation, instantiated for config::User)
+    import checks.c14 as c14
+    c14.o3_identity(chk, prog, ['User'], report_as='C09')
 
 
 if __name__ == '__main__':
